@@ -72,6 +72,43 @@ def main():
                         {"package_model": open(os.path.join(p.root, "model", "model.yml")).read(), "run": r, "lang": lang,
                          "leg": legname, "stderr": rr.get("stderr"), "input_hex": open(rr["in"], "rb").read().hex()[:4000] if "in" in rr else None,
                          "output_hex": (rr.get("outbytes") or b"").hex()[:4000]})
+    # ---- large payloads and buffer boundaries (WireBig.tla): every later element is shifted across the 64 KiB buffer
+    #      boundaries of readers and writers by a leading padding string whose length varies from run to run
+    pads = list(range(0, 13)) if thorough else sorted(set([0, 3, 6, 9] + [(c.seed * 5 + k) % 11 for k in (1, 2)]))
+    bigrecs = pmap(we.export_big, pads, jobs=4)
+    bp = we.BigPackage(sc, bigrecs[0])
+    bg, bb = we.prepare([bp], yardl, home, notes=notes)
+    if not bg:
+        c.note("large-payload package unusable: %s" % (bp.problem or "")[:500])
+    else:
+        def bigwork(args):
+            pad, recs = args
+            vals = bp.vals_for(recs)
+            out = []
+            for lang in ("py", "cpp"):
+                for legname, (fi, fo), kw in (("b2b", ("binary", "binary"), {"bufsize": 1 + pad % 3, "block": [None, 7, 1][pad % 3]}),
+                                              ("b2j", ("binary", "ndjson"), {"block": 5}),
+                                              ("j2b", ("ndjson", "binary"), {"bufsize": 4})):
+                    if lang == "py" and legname == "b2b":
+                        # (pydrv also has a "short:<k>" mode feeding the reader through a source that returns short reads; the
+                        # Python runtime mistakes those for EOF / trips over its buffer compaction, but a standard BufferedReader
+                        # never produces them, so they are outside what C01 states and are not asserted - see DESIGN.md)
+                        kw = dict(kw, mode=["copy", "list", "items"][pad % 3])
+                        kw.pop("bufsize", None)
+                    rr = we.leg(bp, lang, fi, fo, vals, "big-%s-%d-%s" % (lang, pad, legname), **kw)
+                    out.append((pad, lang, legname, rr))
+            return out
+        for pad, lang, legname, rr in [x for lst in pmap(bigwork, list(zip(pads, bigrecs)), jobs=6) for x in lst]:
+            c.cov["traces_validated_against_impl"] += 1
+            c.count(("big", pad, lang, legname), nontrivial=True)
+            if not rr["ok"]:
+                if legname != "b2b" and rr.get("rc") != 0:
+                    c.cov["bridging_exceptions_left_to_C03"] = c.cov.get("bridging_exceptions_left_to_C03", 0) + 1
+                    continue
+                st = we.blame_step(bp, rr["msg"])
+                c.violation("C01:%s:%s:big:%s" % (lang, legname, st["name"] if st else "?"), rr["msg"],
+                            {"pad": pad, "lang": lang, "leg": legname, "stderr": rr.get("stderr"), "note": "values: spec/wire/WireBig.tla with VERIF_PAD=%d" % pad})
+        c.cov["large_payload_runs"] = {"pads": pads, "stream_bytes": len(bp.spec_binary(bp.vals_for(bigrecs[0])))}
     c.cov["json_legs_skipped_because_ndjson_codec_failed"] = skipped
     c.cov["packages"] = len(good)
     c.cov["types"] = len(types)
